@@ -75,17 +75,17 @@ func parseValue(s string) (Value, error) {
 		return Value{}, nil
 	}
 
-	resolvedUnit := Px
+	// the longest matching suffix is the unit: "1rem" ends with "em" too
+	resolvedUnit, unitSuffix := Px, ""
 	for u, suffix := range units {
 		if u == 0 {
 			continue
 		}
-		if strings.HasSuffix(s, suffix) {
-			s = strings.TrimSpace(strings.TrimSuffix(s, suffix))
-			resolvedUnit = Unit(u)
-			break
+		if strings.HasSuffix(s, suffix) && len(suffix) > len(unitSuffix) {
+			resolvedUnit, unitSuffix = Unit(u), suffix
 		}
 	}
+	s = strings.TrimSpace(strings.TrimSuffix(s, unitSuffix))
 	v, err := parseFiniteFloat(s)
 	return Value{U: resolvedUnit, V: Fl(v)}, err
 }
